@@ -605,6 +605,7 @@ type Case struct {
 	Conf  string `json:"conf,omitempty"`
 	Shard []int  `json:"shard,omitempty"`
 	Rep   int    `json:"rep,omitempty"`
+	Mods  []int  `json:"mods,omitempty"` // xmod: one module per thread
 }
 
 type caseResult struct {
@@ -760,6 +761,8 @@ func genCases(p *Plan) []Case {
 			}
 		}
 	}
+	// (6) different modules compiled concurrently in one process against one directory
+	cs = append(cs, xmodCases(p)...)
 	return cs
 }
 
@@ -885,6 +888,8 @@ func runCase(p *Plan, c Case) caseResult {
 		return runFault(mi, c)
 	case "conc":
 		return runConc(mi, c)
+	case "xmod":
+		return runXmod(p, c)
 	}
 	fw.Fatalf("unknown case kind %q", c.Kind)
 	return caseResult{}
@@ -1091,6 +1096,14 @@ func main() {
 			}
 		}
 	})
+	// (6, secondary) each module compiled while another goroutine compiles a different one (free-running)
+	concN, concSame := concurrentDeterminism(plan, func(i int, v viol) {
+		report(map[string]any{"tier": run.Tier, "spec": specs[i], "case": Case{Kind: "det-inproc"}}, []viol{v})
+	})
+	outcomes.AddN("det:concurrent-with-other-module-identical", concSame)
+	if concN != concSame {
+		outcomes.AddN("det:concurrent-with-other-module-DIFFERENT", concN-concSame)
+	}
 	plan.Cases = genCases(plan)
 	if os.Getenv("VERIF_C13_DRY") != "" { // print the size of the enumeration and stop
 		n := map[string]int{}
@@ -1127,6 +1140,13 @@ func main() {
 		func(i int, res string, crash *fw.Crash) {
 			c := plan.Cases[i]
 			rep := map[string]any{"tier": run.Tier, "spec": plan.Mods[c.Mod].Spec, "case": c}
+			if len(c.Mods) > 0 {
+				var sp []modSpec
+				for _, x := range c.Mods {
+					sp = append(sp, plan.Mods[x].Spec)
+				}
+				rep["specs"] = sp
+			}
 			if crash != nil {
 				evals++
 				byKind[c.Kind]++
@@ -1154,7 +1174,7 @@ func main() {
 				detSums[c.Mod] = append(detSums[c.Mod], cr.Sum)
 			}
 			if c.Kind != "det" && c.Kind != "control" {
-				distinct[fmt.Sprintf("%d/%s/%s/%d/%s/%d/%s/%s/%s/%s/%v", c.Mod, c.Kind, c.Flow, c.K, c.Torn, c.L, c.Ver, c.Body, c.Errno, c.Conf, c.Shard)] = true
+				distinct[fmt.Sprintf("%d/%s/%s/%d/%s/%d/%s/%s/%s/%s/%v", c.Mod, c.Kind, c.Flow, c.K, c.Torn, c.L, c.Ver, c.Body, c.Errno, c.Conf, c.Shard)+fmt.Sprint(c.Mods)] = true
 			}
 			if len(cr.Viols) > 0 {
 				for _, v := range cr.Viols {
@@ -1200,18 +1220,20 @@ func main() {
 		Rule:    "one evaluation = one recovery (fresh cache object + fresh runtime + CompileModule + all exports called) on one materialised directory state, or one complete interleaving for the reader configurations; distinct non-trivial = distinct (module, crash point, torn file, torn length | truncation length | zero-tail cut | version variant x body | fault step x errno | interleaving shard) tuples, controls and determinism repetitions excluded",
 		Samples: samples.List(), Exhaustive: true, Outcomes: outcomes.Map(),
 		Bounds: map[string]any{"modules": sizes, "evaluations_by_kind": bk,
-			"torn_lengths":       "all lengths when the un-synced span is <= 4096 bytes, else fixed header, field boundaries, trailer and a 64-byte grid",
-			"truncation_lengths": "all lengths when the entry is <= 8192 bytes, else all of header + offset table + trailer (256 B) and a 64-byte grid in code/source map",
-			"version_variants":   []string{"shorter", "longer", "same-length-different", "prefix-of-current", "current-as-prefix", "empty", "len255-claimed", "len255-real"},
-			"fault_errnos":       []string{"ENOSPC", "EIO", "ENOSPC after a short write (write steps)"},
-			"interleavings":      "w2-states: 2 writers x all merges of their mutating steps, full recovery in every intermediate state; w2-reader: 2 writers + reader (open, read as separate steps); w3-coarse: 3 writers, points create/write/rename; thorough adds w3-full and w3-reader-coarse"},
-		Extra: map[string]any{"prep_wall_s": prepWall, "in_process_recompilations": inproc, "other_process_compilations": detProc, "interleaving_counters": extra, "deterministic_compilation_verifier_build": dv},
+			"torn_lengths":               "all lengths when the un-synced span is <= 4096 bytes, else fixed header, field boundaries, trailer and a 64-byte grid",
+			"truncation_lengths":         "all lengths when the entry is <= 8192 bytes, else all of header + offset table + trailer (256 B) and a 64-byte grid in code/source map",
+			"version_variants":           []string{"shorter", "longer", "same-length-different", "prefix-of-current", "current-as-prefix", "empty", "len255-claimed", "len255-real"},
+			"fault_errnos":               []string{"ENOSPC", "EIO", "ENOSPC after a short write (write steps)"},
+			"interleavings":              "w2-states: 2 writers x all merges of their mutating steps, full recovery in every intermediate state; w2-reader: 2 writers + reader (open, read as separate steps); w3-coarse: 3 writers, points create/write/rename; thorough adds w3-full and w3-reader-coarse",
+			"cross_module_interleavings": "x2: two threads in one process/runtime each CompileModule of a DIFFERENT module (pairs small+big, big+small, dwarf+plain) on one cache directory, all merges of their points open/create/3 write chunks/rename, GOMAXPROCS(1); thorough adds x3-coarse (three modules, points open/create/write/rename)"},
+		Extra: map[string]any{"prep_wall_s": prepWall, "in_process_recompilations": inproc, "free_running_concurrent_compilations_compared": concN, "other_process_compilations": detProc, "interleaving_counters": extra, "deterministic_compilation_verifier_build": dv},
 	}, []string{
 		"crash model: directory operations (create, rename, remove) are durable in program order; data written after the last fsync of a file may be cut at any enumerated length; fsynced data is durable",
 		"the recovering process is modelled by a fresh CompilationCache + Runtime in a child process on a copy of the directory state (same binary, same CPU features)",
 		"arbitrary byte corruption of entries is outside the statement (truncation and foreign versions only); zero-filled tails are enumerated only inside the checksummed code region",
 		"determinism across Go's randomised map iteration is exercised by repetition (5 in-process, 3 processes), not owned by the explorer",
 		"interleavings are at the granularity of the file-cache's file-system operations; the reader's read of an opened file is one step",
+		"cross-module interleavings: a thread's compile+serialize and its non-point file operations run atomically when it is scheduled; GOMAXPROCS(1) makes per-P caches (sync.Pool) deterministic",
 	})
 }
 
@@ -1250,7 +1272,7 @@ func caseClass(c Case) string {
 		return c.Ver + "-" + c.Body
 	case "fault":
 		return fmt.Sprintf("%s-%s", c.Flow, c.Errno)
-	case "conc":
+	case "conc", "xmod":
 		return c.Conf
 	case "trunc":
 		return "truncated-entry"
@@ -1322,9 +1344,10 @@ func replayMain(file string) {
 	var doc struct {
 		Signature string `json:"signature"`
 		Replay    struct {
-			Tier string  `json:"tier"`
-			Spec modSpec `json:"spec"`
-			Case Case    `json:"case"`
+			Tier  string    `json:"tier"`
+			Spec  modSpec   `json:"spec"`
+			Specs []modSpec `json:"specs"`
+			Case  Case      `json:"case"`
 		} `json:"replay"`
 	}
 	if err := json.Unmarshal(b, &doc); err != nil {
@@ -1335,6 +1358,16 @@ func replayMain(file string) {
 	mi, pv := prepare(doc.Replay.Spec)
 	c := doc.Replay.Case
 	c.Mod = 0
+	allMods := []*modInfo{mi}
+	if len(doc.Replay.Specs) > 0 { // xmod: one module per thread
+		allMods, c.Mods = nil, nil
+		for i, sp := range doc.Replay.Specs {
+			m, v := prepare(sp)
+			allMods = append(allMods, m)
+			pv = append(pv, v...)
+			c.Mods = append(c.Mods, i)
+		}
+	}
 	fmt.Printf("replaying %s: module %s case %+v\n", doc.Signature, mi.Spec.Name, c)
 	failed := false
 	for _, v := range pv {
@@ -1352,7 +1385,7 @@ func replayMain(file string) {
 			failed = failed || d != "identical"
 		}
 	} else {
-		plan := &Plan{Tier: doc.Replay.Tier, Mods: []*modInfo{mi}, Cases: []Case{c}}
+		plan := &Plan{Tier: doc.Replay.Tier, Mods: allMods, Cases: []Case{c}}
 		planPath := filepath.Join(scratchRoot, "plan.gob")
 		writePlan(planPath, plan)
 		os.Args = []string{os.Args[0], "quick"}
